@@ -112,6 +112,14 @@ typedef struct {
 static mock_t *mock[MAXG];
 static int n_mock, mock_cap = 4, mock_delay = 0;
 static uint64_t ev_seq;
+/* livelock detection, independent of the load of the machine: the manager polls events for ever without
+   any operation being enqueued or executed (a legitimate wait is at most <delay> polls per event) */
+#define IDLE_POLL_LIMIT 200000
+static long idle_polls; static int cur_task = -1; static FILE *g_out;
+static void report_livelock(void) {
+    if (g_out) { fprintf(g_out, "HANG@%d\n#bye\n", cur_task); fflush(g_out); }
+    _exit(0);
+}
 
 /* observations */
 static int32_t obs_in[MAXT][MAXF]; static int obs_dev[MAXT]; static volatile int32_t runs[MAXT];
@@ -180,12 +188,14 @@ static void run_kernel(mop_t *o) {
 static void stream_drain(mstream_t *s, int upto) {
     while (s->qh != upto) {
         mop_t *o = &s->q[s->qh % QCAP];
+        idle_polls = 0;
         if (0 == o->kind) { memcpy(o->dst, o->src, o->n); ev(" c%d:%d>%d", o->tid, dev_of_ptr(o->src), dev_of_ptr(o->dst)); }
         else run_kernel(o);
         s->qh++;
     }
 }
 static mop_t *stream_push(mstream_t *s) {
+    idle_polls = 0;
     if (s->qt - s->qh >= QCAP) { fprintf(stderr, "mock stream overflow\n"); abort(); }
     mop_t *o = &s->q[s->qt % QCAP]; s->qt++; memset(o, 0, sizeof *o); return o;
 }
@@ -210,6 +220,7 @@ static int mock_event_record(parsec_device_gpu_module_t *g, parsec_gpu_exec_stre
 static int mock_event_query(parsec_device_gpu_module_t *g, parsec_gpu_exec_stream_t *gs, int32_t idx) {
     mstream_t *s = (mstream_t *)gs; (void)g;
     scan_slots();
+    if (++idle_polls > IDLE_POLL_LIMIT) report_livelock();
     if (s->ev_left[idx] > 0) { s->ev_left[idx]--; return 0; }
     stream_drain(s, s->ev_mark[idx]);
     return 1;
@@ -303,6 +314,7 @@ static int cpu_body(parsec_execution_stream_t *es, parsec_task_t *this_task) {
     parsec_dtd_unpack_args(this_task, &tid, &p[0], &p[1], &p[2], &p[3], &p[4], &p[5]);
     const task_t *t = &C.t[tid];
     int32_t in[MAXF]; int nin = 0;
+    idle_polls = 0;
     for (int j = 0; j < t->nacc; j++) {
         if (NULL == p[j]) { obs_bad[tid] |= 2; continue; }
         if (dev_of_ptr(p[j])) obs_bad[tid] |= 1;
@@ -458,6 +470,7 @@ static void dump_state(FILE *out) {
 
 static void run_case(FILE *out) {
     int rc;
+    g_out = out; cur_task = -1; idle_polls = 0;
     memset(obs_in, 0, sizeof obs_in); memset(obs_dev, 0, sizeof obs_dev); memset((void *)runs, 0, sizeof runs);
     memset(obs_bad, 0, sizeof obs_bad); evlen = 0; evlog[0] = 0; ev_seq = 0;
     memset(slot_owner, 0, sizeof slot_owner);
@@ -490,6 +503,7 @@ static void run_case(FILE *out) {
 
     for (int i = 0; i < C.ntasks; i++) {
         if (C.seq) { fprintf(out, "#p %d\n", i); fflush(out); }            /* progress mark: the parent knows where a hang happened */
+        cur_task = C.seq ? i : -1; idle_polls = 0;
         insert_one(i);
         if (C.seq || (i + 1) % C.batch == 0) {
             rc = parsec_taskpool_wait(g_tp);
@@ -542,8 +556,11 @@ static long usec_since(const struct timespec *t0) {
     struct timespec t1; clock_gettime(CLOCK_MONOTONIC, &t1);
     return (t1.tv_sec - t0->tv_sec) * 1000000L + (t1.tv_nsec - t0->tv_nsec) / 1000;
 }
+static int nhangs;
 static int run_group(int from, int tmo_ms) {
     int pfd[2];
+    /* wall-clock back-stop for hangs the mock does not see (no event polled): shortened once the runtime is known to hang */
+    if (nhangs >= 2) tmo_ms = tmo_ms / 4 > 5000 ? tmo_ms / 4 : 5000;
     if (pipe(pfd)) { result[from] = strdup("<pipe failed>"); return 1; }
     fflush(stdout); fflush(stderr);
     pid_t pid = fork();
@@ -566,7 +583,7 @@ static int run_group(int from, int tmo_ms) {
         _exit(0);          /* no parsec_fini: the mock modules belong to no component */
     }
     close(pfd[1]);
-    static char buf[1 << 20]; static char acc[1 << 20]; size_t len = 0, alen = 0; int done = 0, timed_out = 0, ready = 0, n = 0, prog = -1;
+    static char buf[1 << 20]; static char acc[1 << 20]; size_t len = 0, alen = 0; int done = 0, timed_out = 0, ready = 0, n = 0, prog = -1, bye = 0;
     for (int k = from; k < ncases; k++) if (!result[k]) n++;
     struct timespec t0; clock_gettime(CLOCK_MONOTONIC, &t0);
     int cur = from; while (cur < ncases && result[cur]) cur++;
@@ -586,6 +603,7 @@ static int run_group(int from, int tmo_ms) {
         while (done < n && (nl = memchr(buf, '\n', len))) {
             *nl = 0;
             if (!strncmp(buf, "#ready", 6)) ready = 1;
+            else if (!strncmp(buf, "#bye", 4)) bye = 1;
             else if (!strncmp(buf, "#p ", 3)) prog = atoi(buf + 3);
             else if (!strncmp(buf, "#s ", 3)) { size_t l = strlen(buf + 3); if (alen + l + 2 < sizeof acc) { memcpy(acc + alen, buf + 3, l); alen += l; acc[alen] = 0; } }
             else {
@@ -601,9 +619,10 @@ static int run_group(int from, int tmo_ms) {
     }
     close(pfd[0]);
     int st = 0;
+    if (bye) { waitpid(pid, &st, 0); return done; }
     if (done < n) {
         char msg[160];
-        if (timed_out) { kill(pid, SIGKILL); waitpid(pid, &st, 0); snprintf(msg, sizeof msg, "HANG@%d", prog); }
+        if (timed_out) { nhangs++; kill(pid, SIGKILL); waitpid(pid, &st, 0); snprintf(msg, sizeof msg, "HANG@%d", prog); }
         else { waitpid(pid, &st, 0);
                if (WIFSIGNALED(st)) snprintf(msg, sizeof msg, "CRASH@%d signal %d", prog, WTERMSIG(st));
                else snprintf(msg, sizeof msg, "<no observation: exit %d>", WEXITSTATUS(st)); }
@@ -619,7 +638,7 @@ static int run_group(int from, int tmo_ms) {
 
 int main(int argc, char **argv) {
     FILE *f = hc_open(argc, argv); char *l;
-    int tmo_ms = getenv("H_GPU_TIMEOUT_MS") ? atoi(getenv("H_GPU_TIMEOUT_MS")) : 4000;
+    int tmo_ms = getenv("H_GPU_TIMEOUT_MS") ? atoi(getenv("H_GPU_TIMEOUT_MS")) : 20000;
     int cap = 1024;
     lines = malloc(cap * sizeof(char *));
     while ((l = hc_next(f))) {
